@@ -694,6 +694,33 @@ class EqPathParallelSpecFinder(
             return sp1, sp2
         return None
 
+    def _assignment_is_matched(
+        self, matching_info: MatchingInfo, sp1: SpecMap, sp2: SpecMap
+    ) -> bool:
+        """In addition every step below the roots must have matching equivalence
+        paths: a pair of labels that both carried a rule already is accepted by the
+        second search without comparing the paths to its children again."""
+        if not super()._assignment_is_matched(matching_info, sp1, sp2):
+            return False
+        cache: EqPathTracker = defaultdict(lambda: defaultdict(dict))
+        todo = [(self._pi1.root_eq_label, self._pi2.root_eq_label, -1, -1, -1, -1)]
+        seen: Set[Tuple[int, int, int, int, int, int]] = set()
+        while todo:
+            step = todo.pop()
+            if step in seen:
+                continue
+            seen.add(step)
+            id1, id2 = step[0], step[1]
+            if not self._eq_path_matches(*step, sp1, sp2, cache):
+                return False
+            children1, children2 = sp1[id1], sp2[id2]
+            order = matching_info[(id1, id2)][(children1, children2)]
+            todo.extend(
+                (children1[j1], child2, id1, id2, j1, j2)
+                for j2, (j1, child2) in enumerate(zip(order, children2))
+            )
+        return True
+
     def _search_matching_info_recursion_base_cases_eq(
         self,
         id1: int,
